@@ -106,6 +106,45 @@ func sliceScript(lines []string, goal ...string) []string {
 	return out
 }
 
+// tierFilter drops quantified assumptions whose origin tag is not in the allowed set (any subset of the assumptions is
+// sound for an `unsat` answer). allowed == nil keeps everything.
+func tierFilter(lines []string, allowed map[string]bool) []string {
+	if allowed == nil {
+		return lines
+	}
+	var out []string
+	for _, l := range lines {
+		if strings.HasPrefix(l, "(assert") && (strings.Contains(l, "(forall") || strings.Contains(l, "(exists")) {
+			tag := "other"
+			if i := strings.LastIndex(l, ";@"); i >= 0 {
+				tag = strings.TrimSpace(l[i+2:])
+			}
+			if !allowed[tag] {
+				continue
+			}
+		}
+		out = append(out, l)
+	}
+	return out
+}
+
+func buildQueryTier(fr *FuncResult, o *Obligation, allowed map[string]bool) string {
+	var sb strings.Builder
+	sb.WriteString("(set-option :produce-models true)\n")
+	sb.WriteString(prelude)
+	for _, d := range fr.Decls {
+		sb.WriteString(d)
+		sb.WriteString("\n")
+	}
+	for _, l := range sliceScript(tierFilter(fr.Script[:o.Prefix], allowed), o.Reach.s, o.Cond.s) {
+		sb.WriteString(l)
+		sb.WriteString("\n")
+	}
+	sb.WriteString("; ---- obligation " + o.Name + "\n")
+	sb.WriteString("(assert " + o.Reach.s + ")\n(assert (not " + o.Cond.s + "))\n(check-sat)\n")
+	return sb.String()
+}
+
 func buildQuery(fr *FuncResult, o *Obligation, sliced bool) string {
 	var sb strings.Builder
 	sb.WriteString("(set-option :produce-models true)\n")
@@ -180,8 +219,96 @@ func runSolver(ctx context.Context, s solverSpec, file string, timeout int) solv
 // if that does not yield unsat, on the full query.
 func solveOne(workdir string, idx int, fr *FuncResult, o *Obligation, timeout int) {
 	if o.Expect == "unsat" {
-		if raceQuery(workdir, fmt.Sprintf("q%05d-sliced.smt2", idx), buildQuery(fr, o, true), o, timeout, true) {
+		// stage 1: cone-of-influence slice, short timeout (almost every obligation is decided here in well under 1 s)
+		t1 := timeout
+		if t1 > 4 {
+			t1 = 4
+		}
+		if raceQuery(workdir, fmt.Sprintf("q%05d-sliced.smt2", idx), buildQuery(fr, o, true), o, t1, true) {
 			return
+		}
+		spent := o.Seconds
+		// stage 2, in parallel: reduced sets of quantified facts. Any subset of the assumptions is sound for `unsat`;
+		// combinations of quantified lemmas can send the instantiation engines into matching loops although one of
+		// them suffices. Variants: proved lemmas only; lemmas+invariants+preconditions; lemmas+callee posts; and each
+		// tagged quantified fact alone (the ten most recent).
+		type variant struct {
+			name string
+			q    string
+		}
+		var vs []variant
+		hasQ := false
+		var qidx []int
+		for i, l := range fr.Script[:o.Prefix] {
+			if strings.HasPrefix(l, "(assert") && strings.Contains(l, ";@") && (strings.Contains(l, "(forall") || strings.Contains(l, "(exists")) {
+				hasQ = true
+				qidx = append(qidx, i)
+			}
+		}
+		if hasQ {
+			for ti, allowed := range []map[string]bool{{"lemma": true}, {"lemma": true, "inv": true, "pre": true}, {"lemma": true, "post": true, "pre": true}} {
+				vs = append(vs, variant{fmt.Sprintf("tier%d", ti+1), buildQueryTier(fr, o, allowed)})
+			}
+			if len(qidx) > 10 {
+				qidx = qidx[len(qidx)-10:]
+			}
+			for k, keep := range qidx {
+				var lines []string
+				for i, l := range fr.Script[:o.Prefix] {
+					if i != keep && strings.HasPrefix(l, "(assert") && (strings.Contains(l, "(forall") || strings.Contains(l, "(exists")) && !strings.HasSuffix(l, ";relax") {
+						continue
+					}
+					lines = append(lines, l)
+				}
+				var sb strings.Builder
+				sb.WriteString("(set-option :produce-models true)\n")
+				sb.WriteString(prelude)
+				for _, d := range fr.Decls {
+					sb.WriteString(d + "\n")
+				}
+				for _, l := range sliceScript(lines, o.Reach.s, o.Cond.s) {
+					sb.WriteString(l + "\n")
+				}
+				sb.WriteString("; ---- obligation " + o.Name + "\n(assert " + o.Reach.s + ")\n(assert (not " + o.Cond.s + "))\n(check-sat)\n")
+				vs = append(vs, variant{fmt.Sprintf("single%d", k), sb.String()})
+			}
+			// the full sliced query again with the whole timeout
+			vs = append(vs, variant{"sliced", buildQuery(fr, o, true)})
+			type res struct {
+				ok  bool
+				tag string
+				ob  Obligation
+			}
+			ch := make(chan res, len(vs))
+			for _, v := range vs {
+				v := v
+				go func() {
+					oc := *o
+					ok := raceQuerySolvers(workdir, fmt.Sprintf("q%05d-%s.smt2", idx, v.name), v.q, &oc, timeout, true, []solverSpec{solvers[0], solvers[2]})
+					ch <- res{ok, v.name, oc}
+				}()
+			}
+			var got *res
+			maxSec := 0.0
+			for range vs {
+				r := <-ch
+				if r.ob.Seconds > maxSec {
+					maxSec = r.ob.Seconds
+				}
+				if r.ok && (got == nil || r.ob.Seconds < got.ob.Seconds) {
+					rr := r
+					got = &rr
+				}
+			}
+			if got != nil {
+				*o = got.ob
+				if got.tag != "sliced" {
+					o.Solver += "-" + got.tag
+				}
+				o.Seconds += spent
+				return
+			}
+			o.Seconds = spent + maxSec
 		}
 	}
 	defer func() {
@@ -219,6 +346,10 @@ func solveOne(workdir string, idx int, fr *FuncResult, o *Obligation, timeout in
 
 // raceQuery runs all solvers on q. With onlyUnsat it reports success only for an unsat answer.
 func raceQuery(workdir, name, q string, o *Obligation, timeout int, onlyUnsat bool) bool {
+	return raceQuerySolvers(workdir, name, q, o, timeout, onlyUnsat, nil)
+}
+
+func raceQuerySolvers(workdir, name, q string, o *Obligation, timeout int, onlyUnsat bool, only []solverSpec) bool {
 	file := filepath.Join(workdir, name)
 	if len(q) > 8<<20 {
 		o.Status, o.Solver, o.Model = "undecided", "none", "VC larger than 8 MB"
@@ -234,6 +365,9 @@ func raceQuery(workdir, name, q string, o *Obligation, timeout int, onlyUnsat bo
 	set := append([]solverSpec{}, solvers...)
 	if strings.Contains(q, "(forall") || strings.Contains(q, "(exists") {
 		set = append(set, fmfSolver)
+	}
+	if only != nil {
+		set = only
 	}
 	ch := make(chan solveOut, len(set))
 	for _, s := range set {
